@@ -80,7 +80,14 @@ func runC16P(r *simkit.Run, c Cfg) {
 		rhost = nil
 		r.Probe("receiver-with-topic-and-no-host")
 	}
-	rc, err := announce.NewReceiver(rhost, "ipni-test", ropts...)
+	topicName := "ipni-test"
+	if rhost != nil && tp.Chance(1, 6, "hostNoTopic") {
+		// a libp2p host but no topic (what a subscriber built with a host
+		// and RecvAnnounce("") makes): direct announcements only
+		topicName = ""
+		r.Probe("receiver-with-host-and-no-topic")
+	}
+	rc, err := announce.NewReceiver(rhost, topicName, ropts...)
 	if err != nil {
 		r.Violate("c16.setup", "NewReceiver: %v", err)
 		return
@@ -202,7 +209,7 @@ func runC16P(r *simkit.Run, c Cfg) {
 				r.Advance(time.Second)
 			}
 			r.Quiesce()
-			for _, g := range simkit.DumpGoroutines() {
+			for _, g := range simkit.DumpBubble() {
 				if g.Bubble != "" && strings.Contains(g.Stack, "announce.(*Receiver).watch") {
 					r.Violate("c16.watcher", "the pubsub watcher goroutine is still alive after Close returned [%s]", g.State)
 				}
